@@ -19,4 +19,11 @@ def deleteCalcChain (cs : List CalcC) (index : Nat) (cell : Name) : List CalcC :
   cs.filter fun c =>
     !((c.i == index && c.r == cell) || (c.i == index && cell == []) || (c.i == 0 && c.r == cell))
 
+/-- the calcChain effect of `copySheet(from, to)`:
+`_ = f.deleteCalcChain(f.getSheetID(f.GetSheetName(to)), "")` (Go's -1 for an unknown name matches no entry) -/
+def copySheetCalc (s : St) (to : Nat) (cs : List CalcC) : List CalcC :=
+  match getSheetID s (getSheetName s to) with
+  | some id => deleteCalcChain cs id []
+  | none => cs
+
 end XlModel.Sheets
